@@ -11,6 +11,7 @@
 #  plus a malformed stream (two SELECTs, SELECT not first, SELECT and UPDATE, LIMIT without integer, ...) compared by
 #  error tag, a token-soup stream for the scanners, and single-character probes of the whitespace / case-folding classes.
 import ast
+import itertools
 import lib
 
 THEOREM = ('C08_cleanup_invariant / C08_literals_opaque / C08_combine_verbatim / C08_token_spelling_partial (Props/C08.v); '
@@ -181,10 +182,12 @@ def kw_case(rng, word, mode):
 
 class Spelling:
     """all spelling choices derive from the rng given at construction; canonical = no rng"""
-    def __init__(self, rng, lang):
+    def __init__(self, rng, lang, perm=None, sep=None, case_mode=None):
         self.rng = rng
         self.lang = lang
         self.canon = rng is None
+        self.perm = perm            # enumerated clause order (tuple of indices) instead of a random shuffle
+        self.sep = sep              # enumerated separator between all words instead of the random layout
         if self.canon:
             self.case_mode = 'upper'
         else:
@@ -193,6 +196,8 @@ class Spelling:
             self.p_wide = rng.choice([0.0, 0.2, 0.5])
             self.p_tab = rng.choice([0.0, 0.0, 0.2])
             self.brackets = rng.choice([0.0, 0.0, 0.5, 1.0])
+            if case_mode is not None:
+                self.case_mode = case_mode
 
     def kw(self, words):
         """a (multi-word) keyword -> list of query words"""
@@ -262,6 +267,8 @@ def render(q, sp):
     lits = ref_literals(' '.join(words))
     if sp.canon:
         return ' '.join(words), lits
+    if sp.sep is not None:
+        return sp.sep.join(words), lits
     return layout(words, sp), lits
 
 
@@ -333,7 +340,9 @@ def render_words(q, sp):
         clauses.append(sp.kw('except') + split_words(', '.join(sp.expr([v]) for v in q['except'])))
     if q['kind'] == 'select' and sp.coin(0.25):
         clauses.append(sp.kw('from') + [kw_case(rng, 'a', sp.case_mode)])
-    if not sp.canon:
+    if sp.perm is not None:
+        clauses = [clauses[i] for i in sp.perm if i < len(clauses)] + clauses[len(sp.perm):]
+    elif not sp.canon:
         rng.shuffle(clauses)
     words = head + [w for c in clauses for w in c]
     if q['with'] is not None:
@@ -564,8 +573,8 @@ def expected_internal(m, g, lang, c=None):
 
 def sizes(ctx):
     if ctx.tier == 'quick':
-        return {'queries': 700, 'spellings': 8, 'malformed': 1500, 'soup': 6000, 'hdr_queries': 200}
-    return {'queries': 6000, 'spellings': 64, 'malformed': 20000, 'soup': 150000, 'hdr_queries': 2000}
+        return {'queries': 700, 'spellings': 8, 'malformed': 1500, 'soup': 6000, 'hdr_queries': 200, 'enum_queries': 8}
+    return {'queries': 6000, 'spellings': 64, 'malformed': 20000, 'soup': 150000, 'hdr_queries': 2000, 'enum_queries': 60}
 
 
 def describe_internal(c, e, g):
@@ -632,7 +641,7 @@ def run(ctx):
                 'WITH modifier) over small string tables, literal contents from the keyword/metacharacter alphabet in both '
                 'quote styles; each under %d random spellings (keyword case, clause order, spaces/tabs/line breaks/comment '
                 'lines/semicolons, aN vs a[N], TOP vs LIMIT, JOIN vs INNER JOIN, LEFT vs LEFT OUTER JOIN, = vs == and swapped '
-                'ON sides, FROM a, UPDATE a SET); malformed and token-soup streams for the model tie; non-trivial = distinct '
+                'ON sides, FROM a, UPDATE a SET); for the first queries additionally every order of up to 4 clauses x keyword case {lower, UPPER, Capitalised, aLtErNaTiNg} x whitespace {1 space, 3 spaces, TAB, LF, LF+comment+LF}; malformed and token-soup streams for the model tie; non-trivial = distinct '
                 'spelling text that differs from its canonical spelling, or distinct malformed/soup text with at least one '
                 'statement keyword' % sz['spellings'])
     public = {'py': [], 'js': []}
@@ -663,6 +672,22 @@ def run(ctx):
                 internal[lang].append({'kind': 'internal', 'lang': lang, 'q': text, 'spec_literals': tl})
                 if text != canon:
                     ctx.nontriv((lang, text))
+            if not with_header and qi < sz['enum_queries']:
+                # bounded-exhaustive block: every clause order x keyword-case pattern x whitespace kind
+                nclauses = sum(1 for k in ('where', 'order', 'group', 'join', 'except') if q[k] is not None) + 2
+                perms = list(itertools.permutations(range(min(nclauses, 4))))
+                cp = '#' if lang == 'py' else '//'
+                for perm in perms:
+                    for cm in ('lower', 'upper', 'cap', 'alt'):
+                        for sep in (' ', '   ', '\t', '\n', '\n%s c\n' % cp):
+                            text, tl = render(q, Spelling(rng, lang, perm=perm, sep=sep, case_mode=cm))
+                            if text in seen:
+                                continue
+                            seen.add(text)
+                            public[lang].append(dict(base, q=text, is_canon=False))
+                            internal[lang].append({'kind': 'internal', 'lang': lang, 'q': text, 'spec_literals': tl})
+                            ctx.nontriv((lang, text))
+                            ctx.stat('enumerated_spellings')
             ctx.stat('queries_%s_%s' % (lang, q['kind']))
             for k in ('where', 'order', 'group', 'join', 'except', 'top', 'distinct', 'with'):
                 if q[k] is not None:
